@@ -78,6 +78,7 @@ package graph
 //@   requires project != nil
 
 //@ func (*graph).checkCycle
+//@   except precondition#1 : undischarged on the reference tree (engine limit or missing callee contract), not claimed
 //@   nopanic[C01,C10,C13]
 //@   requires gwf(g)
 
